@@ -159,6 +159,21 @@ CHECKS = {
             "requires_grad on everything, so misaligned indices / shifted prefixes on requires_grad subsets are "
             "invisible to them. NOT decided: gradient VALUES, hand-written _bilinear_derivative layouts.",
             TRUST, "DESIGN.md section 3, C07"),
+    "C08": (True,
+            "backward data dependence (in-place methods and out= keywords as definitions) and dominance / reachability "
+            "on the statement CFG of linear_cg and its two update helpers; sibling agreement between the preconditioned "
+            "branch and the un-preconditioned helper",
+            "Partial, structural: the control / data skeleton that C08's clauses presuppose, for all inputs: converged "
+            "columns are frozen by masking the step length by has_converged in BOTH sibling update paths (Z); the "
+            "residual norm that decides convergence is masked by rhs_is_zero inside the loop and the returned iterate is "
+            "multiplied back by rhs_norm after it (S); max_tridiag_iter > max_iter and a NaN first residual raise before "
+            "the iteration (E); the early exit and tolerance_reached are controlled by tolerance and residual norm (X); "
+            "the NumericalWarning test lies on every path from the loop to a return (W); every torch.div by an iteration "
+            "quantity is dominated by the lt(den, eps) -> masked_fill_(mask, 1) idiom (D). The tests use one "
+            "well-conditioned system with a preconditioner-free path, so the preconditioned sibling, zero columns and "
+            "zero curvature are not exercised. NOT decided (numerical): monotone A-norm error, Chebyshev bound, that "
+            "t_mat is the Lanczos matrix, preconditioner independence of the answer.",
+            TRUST, "DESIGN.md section 3, C08"),
 }
 
 NOT_APPLICABLE = {
